@@ -301,6 +301,8 @@ def run_world(plan, world=None):
   tr.closed_at = None
   tr.close_seq = None
 
+  st_e = {'n': 0}
+
   def issue(rec):
     rec.issued_at = loop.now()
     rec.before_open = not open_ar.ready()
@@ -325,6 +327,15 @@ def run_world(plan, world=None):
         k, v = classify(a)
         rec.first = (loop.now(), k, v, net.seq)
         rec.first_snapshot = snapshot(a)
+        coe = plan.get('close_on_error')
+        if coe and k == 'error' and tr.closed_at is None and getattr(tr, 'base', None) is not None:
+          st_e['n'] += 1
+          if st_e['n'] == coe['nth']:
+            # the application closes the client in the handler of the failed call, i.e. the moment the caller is woken
+            client.DispatcherClose()
+            tr.closed_at = loop.now()
+            tr.close_seq = net.seq
+            tr.closed_on_error = True
     rec.ar.rawlink(done)
 
   coc = plan.get('close_on_connect')
@@ -371,14 +382,18 @@ def run_world(plan, world=None):
       elif what == 'close':
         for c in srv.live():
           c.deliver_eof()
-      elif what == 'silent':
+      elif what in ('silent', 'hang'):
+        if what == 'hang':
+          srv.set_down(reset=False)      # the process hangs: established connections stay, answers stop, new connects are refused
         p = tr.peers[act[1]]
         if not hasattr(p, '_orig'):
           p._orig = (p.script, getattr(p, 'ping', None))
         p.script = (lambda *a: ['never'])
         if hasattr(p, 'ping'):
           p.ping = lambda k: ['ignore']
-      elif what == 'unsilent':
+      elif what in ('unsilent', 'unhang'):
+        if what == 'unhang':
+          srv.set_up()
         p = tr.peers[act[1]]
         if hasattr(p, '_orig'):
           p.script = p._orig[0]
